@@ -28,6 +28,33 @@ prop('C01',
           '(from_num_days_from_ce_opt, num_days_from_ce, YEAR_DELTAS, cycle conversions) against days_before_year and the lemmas that join them '
           '(day number strictly monotone in (year, ordinal), 400-year weekday periodicity, successor = next day).')
 
+prop('C02',
+     title='Unix timestamps and UTC date-times correspond one-to-one',
+     verus=['datetime'],
+     uncovered=['From<SystemTime>/Into<SystemTime> (std type opaque to both engines)',
+                'TimeZone::timestamp_opt/_millis_opt/_micros/_nanos (trait-default one-line delegations to from_timestamp*)',
+                'deprecated NaiveDateTime::from_timestamp*/timestamp* (delegate to the DateTime<Utc> functions)'],
+     text='Verus proves DateTime::<Utc>::from_timestamp/_millis/_micros/_nanos and timestamp/_millis/_micros/_nanos_opt/_subsec_* on the real text '
+          'against day_number - 719163 (floor semantics for sub-second units, construction fails exactly outside the date range or for an invalid '
+          'nanosecond field, nanosecond accessor None exactly when the count does not fit i64), over the proved contracts of the date, time and TimeDelta units.')
+
+prop('C03',
+     title='Adding and subtracting elapsed time is exact or refused, never wrapped',
+     verus=['datetime', 'date', 'iters'],
+     uncovered=['DateTime<Tz>::checked_add_signed/checked_sub_signed/signed_duration_since for Tz other than via the naive UTC value (delegations through TimeZone::from_utc_datetime)',
+                'AddAssign/SubAssign impls', 'Add/Sub<core::time::Duration> impls (std Duration conversion)'],
+     text='Verus proves NaiveDateTime::checked_add_signed/checked_sub_signed/signed_duration_since (exact instant or refusal exactly when not representable), '
+          'NaiveDate::add_days/checked_add_days/checked_sub_days/checked_add_signed/checked_sub_signed/signed_duration_since for every u64/i32/TimeDelta argument, '
+          'the operator forms (= checked form + expect) and the day/week iterators (step 1/7, end at the limit, exact size_hint) on the real text.')
+
+prop('C07',
+     title='Time-of-day arithmetic wraps by whole days and honours leap-second operands',
+     verus=['time', 'datetime'],
+     uncovered=['Add/Sub<core::time::Duration> for NaiveTime (std Duration conversion)', 'AddAssign/SubAssign impls', 'deprecated panicking constructors from_hms* (expect wrappers)'],
+     text='Verus proves every NaiveTime constructor (accepted exactly for h<24, m<60, s<60, nano<1e9 or <2e9 on second 59), accessor, single-field replacement, '
+          'overflowing_add_signed/sub_signed against the documented leap-line model (stay in / leave / skip the leap second as if it were the only one), '
+          'signed_duration_since on the joint leap line (antisymmetric), offset shifts, and the date-time forms with the carry applied to the date.')
+
 prop('C06',
      title='Durations are exact signed nanosecond counts within a closed range',
      verus=['timedelta'],
@@ -58,8 +85,8 @@ prop('C19',
 
 # properties not (or not yet) claimed: every id of properties.jsonl is either in PROPS or here
 NOT_APPLICABLE = {
-    'C02': 'not built yet', 'C03': 'not built yet', 'C04': 'not built yet', 'C05': 'not built yet',
-    'C07': 'not built yet', 'C08': 'not built yet', 'C10': 'not built yet', 'C12': 'not built yet',
+    'C04': 'not built yet', 'C05': 'not built yet',
+    'C08': 'not built yet', 'C10': 'not built yet', 'C12': 'not built yet',
     'C14': 'not built yet', 'C15': 'not built yet', 'C16': 'not built yet', 'C17': 'not built yet',
     'C09': 'print->parse round trip lives in core::fmt and &str scanning with iterator adapters: no function contract within reach of Verus (no str bytes) and only bounded exploration in Kani, which is another technique',
     'C11': 'RFC 2822 reader/writer is a hand-written scanner over arbitrary strings (comments, name tables, String building): only bounded string exploration is possible',
